@@ -14,6 +14,7 @@ from vf import env, wnio
 from vf.gen import doc
 from vf.model import search as ms
 
+ID = 'C09'
 RULE = ('one evaluation = one (lexicon, scope, query, pos, configuration) tuple; distinct = the tuple; non-trivial = the model '
         'expects a non-empty result, or the query is a variant of a stored form that must NOT match in this configuration')
 ASSUMPTIONS = ['pos filter of synsets(form, pos) applies to the synset (documented), of words/senses to the word']
@@ -27,7 +28,7 @@ POS = ['n', 'v', 'a', 's', 'r']
 
 
 def plan(tier, seed):
-    return [{'seed': seed * 1000003 + i, 'nq': 40 if tier == 'quick' else 70} for i in range(N[tier])]
+    return [{'seed': seed * 1000003 + i, 'nq': 40 if tier == 'quick' else 70} for i in range(N[tier])] + [{'kind': 'pytest-under-contracts', 'seed': 0}]
 
 
 def gen(r):
@@ -125,6 +126,9 @@ def queries_for(words, r, n):
 
 
 def run_case(case, rec):
+    if case.get('kind') == 'pytest-under-contracts':
+        from vf import contracts_case
+        return contracts_case.run(rec, ID)
     import wn
     from wn.morphy import Morphy
     r = random.Random(case['seed'])
